@@ -15,12 +15,16 @@ from __future__ import annotations
 import json
 import os
 import sys
+import threading
+import time
 
 sys.path.insert(0, os.path.dirname(os.path.abspath(__file__)))
 import gemrig  # noqa: E402
 from gemrig import Rig, Stuck  # noqa: E402
 import hlib  # noqa: E402
 
+import secsgem.common  # noqa: E402
+import secsgem.gem  # noqa: E402
 import secsgem.secs  # noqa: E402
 
 EN, DIS, SEL, LOST, T3, DLY = ("en",), ("dis",), ("sel",), ("lost",), ("t3",), ("dly",)
@@ -74,6 +78,8 @@ OTHER = [("rx", 1, 1, 1, "in", None), ("rx", 1, 1, 0, "in", None), ("rx", USER_C
 
 
 def letter_name(lt):
+    if lt[0] == "with":
+        return f"with({lt[1]}:{'_'.join(letter_name(tuple(x)) for x in lt[2])})"
     if lt[0] == "cfg" and len(lt) > 1:
         return f"cfg({lt[2]}={lt[1]},{lt[3]})"
     if lt[0] == "init":
@@ -135,8 +141,8 @@ class Run:
         info = {}
         m = rig.h._communication_state
         timers_before = (id(m._wait_cra_timer), id(m._comm_delay_timer))
-        if lt[0] == "init":
-            token = "cfg"  # the settings were given to the constructor; for the model: nothing happens
+        if lt[0] in ("init", "with"):
+            token = "cfg"  # settings given to the constructor / a second handler in the process; for the model: nothing happens
         elif lt[0] == "cfg":
             token = "cfg"
             if lt == CFG:
@@ -279,7 +285,7 @@ def show_step(st):
 
 
 # ------------------------------------------------------------------------------------------------ direct oracle
-FAULT_CLASSES = ("established-after-loss", "wedged", "reported-established-wrongly", "callback-while-not-established", "stale-timer",
+FAULT_CLASSES = ("established-after-loss", "wedged", "handlers-not-isolated", "reported-established-wrongly", "callback-while-not-established", "stale-timer",
                  "event-without-establishment")
 
 
@@ -368,6 +374,14 @@ def _oracle(steps):
         for key, what in (("delay_armed_with", "establish-communications delay"), ("t3_armed_with", "reply timeout T3")):
             if key in st["info"] and st["info"][key][0] != st["info"][key][1]:
                 bad.append(("wrong-timer-duration", f"the timer armed for the {what} runs {st['info'][key][0]} s, configured are {st['info'][key][1]} s", i))
+        # handlers of one process are independent of each other
+        if "isolation" in st["info"]:
+            bad.append(("handlers-not-isolated", st["info"]["isolation"], i))
+        # no S1F13 between entering WAIT_DELAY and the expiry of the delay timer armed for it, whatever arrives in between (what a new
+        # connection writes first is the send queue of earlier attempts, not a retry)
+        if before == "WAIT_DELAY" and st["dly_before"] and lt != DLY and ids and not (lt in (SEL, CON, ENSEL) and not st["conn_before"]):
+            bad.append(("retry-before-configured-delay", f"S1F13 written in WAIT_DELAY on {letter_name(lt)} while the establish-communications "
+                        "delay timer is still pending", i))
         # the link came up, selected, while the handler was being enabled: the attempt must start (S1F13 written, reply timer pending)
         if lt == ENSEL and before == "DISABLED" and "raised" not in st["info"] and st["link_after"] and not st["link_before"] \
                 and not (after == "WAIT_CRA" and ids and st["t3_after"]):
@@ -387,16 +401,54 @@ def history_tokens(role, commack_req, flags, tokens):
     return f"gemcomm run {role} {commack_req} {flags} {USER_CB[0]}.{USER_CB[1]} " + ",".join(tokens)
 
 
+def with_companion(role_b, letters_b):
+    """first letter of a history: a second, independent handler lives in the same process and goes through `letters_b`,
+    one letter after each letter of the history"""
+    return ("with", role_b, [list(x) for x in letters_b])
+
+
+def observables(r):
+    m = r.rig.h._communication_state
+    return (r.rig.comm(), bool(r.rig.h.waitfor_communicating(0)), r.timers(), id(m._wait_cra_timer), id(m._comm_delay_timer), len(r.rig.log))
+
+
 def run_history(role, commack_req, letters):
-    cfg = letters[0] if letters and letters[0][0] == "init" else ("init", None, None)
+    cfg = next((lt for lt in letters[:2] if lt[0] == "init"), ("init", None, None))
+    comp = next((lt for lt in letters[:2] if lt[0] == "with"), None)
     r = Run(role, commack_req, delay=cfg[1], t3=cfg[2])
+    b = Run(comp[1], 0) if comp else None
+    r.companion = b
+    script = [tuple(x) for x in comp[2]] if comp else []
     try:
+        k = 0
         for lt in letters:
             if r.dead:
                 break
             r.apply(lt)
+            if b is not None and lt[0] not in ("with", "init") and k < len(script):
+                # the other handler takes a step of its own; nothing observable of this one may change.  A caller blocked in
+                # waitfor_communicating() of this handler must not be released by the other handler's establishment.
+                before = observables(r)
+                waiter = None
+                if r.rig.comm() != "COMMUNICATING" and script[k][0] == "rx" and (script[k][1], script[k][2]) in ((1, 13), (1, 14)):
+                    box = []
+                    waiter = threading.Thread(target=lambda: box.append(r.rig.h.waitfor_communicating(0.25)), daemon=True)
+                    waiter.start()
+                    time.sleep(0.01)
+                b.apply(script[k])
+                k += 1
+                if waiter is not None:
+                    waiter.join(gemrig.WAIT)
+                    if box and box[0] and r.rig.comm() != "COMMUNICATING":
+                        r.steps[-1]["info"]["isolation"] = (f"waitfor_communicating(0.25) of this handler ({r.rig.comm()}) returned True when the "
+                                                            f"other handler did {letter_name(script[k - 1])} and is {b.rig.comm()}")
+                after = observables(r)
+                if after != before and "isolation" not in r.steps[-1]["info"]:
+                    r.steps[-1]["info"]["isolation"] = f"a step of the other handler ({letter_name(script[k - 1])}) changed this handler: {before[:3]} -> {after[:3]}"
     finally:
         r.close()
+        if b is not None:
+            b.close()
     return r
 
 
@@ -495,6 +547,16 @@ def gen_histories(rng, tier, search):
                 c = setcfg(value, "t3", via)
                 for hist in ([c, EN, SEL], [EN, SEL, T3, c, DLY], [EN, c, SEL, T3, DLY]):
                     out.append((role, 0, hist, "exh-settings"))
+    # a second, independent handler in the same process goes through its own establish sequence, letter by letter
+    scripts = ([EN, SEL, rx14("match", 0), OTHER[0], LOST, SEL, T3], [EN, SEL, RX13, DIS, EN], [EN, SEL, T3, DLY, rx14("match", 0), LOST],
+               [EN, CON, SEL, rx14("match", 1), DLY, rx14("match", 0)])
+    mains = ([EN, SEL, T3, DLY, T3], [EN, SEL, OTHER[0], RX13Z, LOST], [EN, SEL, rx14("match", 0), OTHER[0], OTHER[2], LOST, SEL],
+             [EN, CON, DLY, SEL, rx14("foreign", 63), T3], [EN, SEL, rx14("match", 1), OTHER[0], DLY, DIS])
+    for role in ("equipment", "host"):
+        for rb in ("equipment", "host"):
+            for sc in scripts:
+                for mn in mains:
+                    out.append((role, 0, [with_companion(rb, sc)] + mn, "iso"))
     # a transport whose enable() brings the link up before it returns
     for role in ("equipment", "host"):
         for pre in ([], [EN, DIS], [EN, SEL, LOST, DIS], [CON], [EN, SEL, rx14("match", 0), DIS, LOST]):
@@ -553,6 +615,123 @@ def shrink(role, ck, letters, klass):
 WORKERS = 6
 
 
+# ------------------------------------------------------------------------------------------------ GEM over SECS-I
+class LineConn(secsgem.common.Connection):
+    """in-memory serial line with the peer's side of the SECS-I line protocol scripted: EOT to our ENQ and ACK to our block
+    (unless `mute`), our EOT is followed by the block the peer wants to send (`pending`)"""
+
+    ENQ, EOT, ACK = 5, 4, 6
+
+    def __init__(self, settings):
+        super().__init__(settings)
+        self.blocks, self.pending, self.mute = [], [], False
+
+    def enable(self):
+        pass
+
+    def disable(self):
+        pass
+
+    def send_data(self, data):
+        data = bytes(data)
+        if data == bytes([self.ENQ]):
+            if not self.mute:
+                self.on_data({"source": self, "data": bytes([self.EOT])})
+        elif data == bytes([self.EOT]):
+            if self.pending:
+                self.on_data({"source": self, "data": self.pending.pop(0)})
+        elif len(data) > 1:
+            self.blocks.append(data)
+            if not self.mute:
+                self.on_data({"source": self, "data": bytes([self.ACK])})
+        return True
+
+
+def secsi_loss_cases(res):
+    """GEM over SECS-I: the link is lost while the protocol thread waits for line bytes (peer's ENQ answered, block missing; own ENQ
+    unanswered; own block not acknowledged).  The `disconnected` event must reach the handler although that thread cannot be
+    stopped: COMMUNICATING is left within the bound."""
+    from secsgem.secsi import SecsISettings
+    from secsgem.secsi.message import SecsIBlock, SecsIMessage
+    from secsgem.secsi.header import SecsIHeader
+
+    class LineSettings(SecsISettings):
+        def create_connection(self):
+            self.conn = LineConn(self)
+            return self.conn
+
+    def wait(cond, what, bound=gemrig.WAIT):
+        end = time.monotonic() + bound
+        while not cond():
+            if time.monotonic() > end:
+                return False
+            time.sleep(0.002)
+        return True
+
+    for role in ("equipment", "host"):
+        for where in ("peer-enq-answered-block-missing", "own-enq-unanswered", "own-block-unacknowledged", "idle"):
+            case = {"role": role, "commack_req": 0, "transport": "SECS-I", "lost": where, "text": f"GEM over SECS-I, established, link lost: {where}"}
+            cls = secsgem.gem.GemEquipmentHandler if role == "equipment" else secsgem.gem.GemHostHandler
+            st = LineSettings(port="mem", device_type=secsgem.common.DeviceType.EQUIPMENT if role == "equipment" else secsgem.common.DeviceType.HOST)
+            h = cls(st)
+            c = h.protocol._connection
+            helpers = []
+
+            def bg(fn):
+                t = threading.Thread(target=fn, daemon=True)
+                t.start()
+                helpers.append(t)
+                return t
+
+            try:
+                h.enable()
+                bg(lambda: c.on_connected({"source": c}))           # `communicating` -> WAIT_CRA -> S1F13 over the line
+                if not wait(lambda: len(c.blocks) >= 1 and h.communication_state.current.name == "WAIT_CRA", "S1F13 over SECS-I"):
+                    res.notes.append(f"SECS-I rig ({role}): no S1F13 seen, case skipped")
+                    continue
+                s1f13 = SecsIBlock.decode(c.blocks[-1])
+                body = secsgem.secs.functions.SecsS01F14({"COMMACK": 0, "MDLN": []}).encode()
+                reply = SecsIMessage(SecsIHeader(s1f13.header.system, st.device_id, 1, 14, from_equipment=(role == "host")), body).blocks[0].encode()
+                c.pending.append(reply)
+                c.on_data({"source": c, "data": bytes([LineConn.ENQ])})
+                if not wait(lambda: h.communication_state.current.name == "COMMUNICATING", "COMMUNICATING over SECS-I"):
+                    res.notes.append(f"SECS-I rig ({role}): not COMMUNICATING, case skipped")
+                    continue
+                res.count(("secsi", role, where), sample=case if len(res.samples) < 12 else None)
+                res.bump("history_kind", "secsi-loss")
+                if where == "peer-enq-answered-block-missing":
+                    c.on_data({"source": c, "data": bytes([LineConn.ENQ])})  # handler answers EOT and waits for the length byte
+                    time.sleep(0.05)
+                elif where == "own-enq-unanswered":
+                    c.mute = True
+                    bg(lambda: h.send_stream_function(secsgem.secs.functions.SecsS01F01()))
+                    time.sleep(0.05)
+                elif where == "own-block-unacknowledged":
+                    n0 = len(c.blocks)
+                    orig = c.send_data
+
+                    def half(data, orig=orig):
+                        if len(bytes(data)) > 1:
+                            c.mute = True
+                        return orig(data)
+                    c.send_data = half
+                    bg(lambda: h.send_stream_function(secsgem.secs.functions.SecsS01F01()))
+                    wait(lambda: len(c.blocks) > n0, "own block", 1.0)
+                bg(lambda: (c.on_disconnecting({"source": c}), c.on_disconnected({"source": c})))
+                left = wait(lambda: h.communication_state.current.name != "COMMUNICATING", "leave COMMUNICATING", 2.0)
+                if not left or h.waitfor_communicating(0):
+                    res.violate("established-after-loss", f"GEM over SECS-I, link lost ({where}): still COMMUNICATING 2 s after the connection "
+                                "reported the loss (the `disconnected` event has not reached the handler)", case)
+            finally:
+                # release whatever still waits for line bytes
+                h.protocol._thread._stop_receiver_thread = True
+                for _ in range(3):
+                    c.on_data({"source": c, "data": bytes([0]) * 16})
+                    time.sleep(0.01)
+                h.protocol._thread._stop_dispatcher_thread = True
+                h.protocol._thread._dispatcher_thread_trigger.set()
+
+
 def run_slice(hs, idxs):
     """run the histories `idxs` of `hs` on the implementation; plain data back (this runs in a worker process)"""
     out = []
@@ -583,8 +762,12 @@ def run_slice(hs, idxs):
                 bump("transition", f"{st['before']}>{st['after']}")
             for o in st["outs"]:
                 bump("output", o[0])
+        bad = oracle(r.steps)
+        if r.companion is not None:
+            bad += [(k, "the second handler of the process: " + why, len(r.steps) - 1) for k, why, _ in oracle(r.companion.steps)
+                    if k not in ("c07-s1f14-system-unchecked",)]
         out.append({"i": i, "tokens": r.tokens, "answer": "ok " + ";".join(show_step(st) for st in r.steps),
-                    "bad": oracle(r.steps), "stats": stats,
+                    "bad": bad, "stats": stats,
                     "nontrivial": any(st["after"] != "DISABLED" for st in r.steps),
                     "rig": any("link_mismatch" in st["info"] for st in r.steps)})
     return out
@@ -667,6 +850,20 @@ def main():
     else:
         hs = gen_histories(rng, a.tier, a.search)
         recs = run_parallel(a, hs)
+    # two fresh handlers of one process own their mutable state (lists, dicts, events, queues, machines, callback tables)
+    if not a.replay:
+        for role in ("equipment", "host"):
+            ra, rb = Rig(role), Rig(role)
+            shared = gemrig.shared_mutables(ra.h, rb.h)
+            ra.close()
+            rb.close()
+            if shared:
+                res.violate("handlers-share-state", f"two independently constructed {role} handlers share mutable objects: {shared[:4]}",
+                            {"role": role, "commack_req": 0, "text": "construct two handlers", "shared": shared[:8]})
+        try:
+            secsi_loss_cases(res)
+        except Exception as exc:  # noqa: BLE001
+            res.notes.append(f"SECS-I rig failed: {type(exc).__name__}: {exc}")
     lines, cases, answers = [], [], []
     seen_classes: dict[str, int] = {}
     stuck = skipped = 0
